@@ -503,3 +503,8 @@ def replay(ctx, payload):
         if v:
             return v[0]["what"] + (" (schedule seed +%d)" % j if j else "")
     return None
+
+
+def explore_shard(ctx):
+    """extra parallel shard of the thorough tier: recording observers under the cooperative scheduler"""
+    return explore_main(ctx)
